@@ -203,7 +203,7 @@ PROPS["C18"] = {
 PROPS["C07"] = {
     "title": "A failed canary is rolled back to the active version",
     "level": "fault_enumeration",
-    "level_text": "Generated histories end in a failed canary by each route (canary fail, restart storm -> auto-fail, canaryTimeout; paused or not; before or after the canary duration elapsed; replica sets or EDS reconciled first) and the rollback reconcile meets each fault position of its two-write window (status write rejected with a generic error or with Conflict, status applied but answer lost, process stop between the writes, spec write rejected with a generic error or with Conflict, spec applied but answer lost, stop before the status write; controllers rebuilt after a stop); optionally the rollout is frozen or the rolling update paused for three minutes from the failure on while the canary pods crash-loop, so the failed set still reports pods past its retention. Within 25 fair rounds spec.template must equal the active set's template, status.canary be nil, status.activeReplicaSet be unchanged and every former canary node run one Ready pod of the active template; the failed set must exist for at least two minutes and is only deleted with an all-zero status (rs-gc monitor); the promotion-rule and status monitors run throughout. TestC07Window enumerates routes x 9 fault positions/kinds x paused x after-duration x reconcile order x hold (none, frozen, rolling-update-paused) completely for a 3-node cluster (648 configurations).",
+    "level_text": "Generated histories end in a failed canary by each route (canary fail, restart storm -> auto-fail, canaryTimeout, canary fail landing between the read and the status write of the canary replica set's own sync; paused or not; before or after the canary duration elapsed; replica sets or EDS reconciled first) and the rollback reconcile meets each fault position of its two-write window (status write rejected with a generic error or with Conflict, status applied but answer lost, process stop between the writes, spec write rejected with a generic error or with Conflict, spec applied but answer lost, stop before the status write; controllers rebuilt after a stop); optionally the rollout is frozen or the rolling update paused for three minutes from the failure on while the canary pods crash-loop, so the failed set still reports pods past its retention. Within 25 fair rounds spec.template must equal the active set's template, status.canary be nil, status.activeReplicaSet be unchanged and every former canary node run one Ready pod of the active template; the failed set must exist for at least two minutes and is only deleted with an all-zero status (rs-gc monitor); the promotion-rule and status monitors run throughout. TestC07Window enumerates routes x 9 fault positions/kinds x paused x after-duration x reconcile order x hold (none, frozen, rolling-update-paused) completely for a 3-node cluster (864 configurations).",
     "level_note": "Exhaustive only for the finite product named (168 combinations, exhaustive_subspaces in the evidence); cluster sizes and replicas are sampled in TestC07Rollback.",
     "technique": "fault injection at every position of the two-write window (enumerated) + property-based sampling (rapid) of failure routes, with a bounded-rounds recovery oracle",
     "quick": {"jobs": [rapid_job("window", "^TestC07Window$", 1, shards=4), rapid_job("rollback", "^TestC07Rollback$", 250, shards=4)]},
